@@ -82,6 +82,10 @@ LoopArgs(n) ==
   \o (IF n.offset.has THEN " offset: " \o (IF n.offset.cont THEN "continue" ELSE ESrc(n.offset.e)) ELSE "")
   \o (IF n.rev THEN " reversed" ELSE "")
 
+\* a tag-level name may be written as a bare word or as a quoted string
+\* (parse_string_or_identifier): nodes carrying qn = TRUE use the quoted spelling
+QName(n, nm) == IF "qn" \in DOMAIN n /\ n.qn THEN "'" \o nm \o "'" ELSE nm
+
 \* what stands between the delimiters of a tag (and on a line of a liquid tag)
 TagHead(n) ==
   CASE n.k = "echo"   -> "echo " \o ESrc(n.e)
@@ -92,21 +96,21 @@ TagHead(n) ==
     [] n.k = "for" -> "for " \o LoopArgs(n)
     [] n.k = "tablerow" -> "tablerow " \o LoopArgs(n) \o (IF n.cols.has THEN " cols: " \o ESrc(n.cols.e) ELSE "")
     [] n.k \in {"break", "continue"} -> n.k
-    [] n.k = "incr" -> "increment " \o n.n
-    [] n.k = "decr" -> "decrement " \o n.n
-    [] n.k = "cycle" -> "cycle " \o (IF n.group = "" THEN "" ELSE n.group \o ": ") \o SeqSrc(n.items, ", ")
+    [] n.k = "incr" -> "increment " \o QName(n, n.n)
+    [] n.k = "decr" -> "decrement " \o QName(n, n.n)
+    [] n.k = "cycle" -> "cycle " \o (IF n.group = "" THEN "" ELSE QName(n, n.group) \o ": ") \o SeqSrc(n.items, ", ")
     [] n.k = "with" -> "with " \o KwSrc(n.args)
     [] n.k \in {"include", "render"} ->
          n.k \o " " \o ESrc(n.name)
             \o (IF n.mode = "none" THEN "" ELSE " " \o n.mode \o " " \o ESrc(n.var)
-                    \o (IF n.alias = "" THEN "" ELSE " as " \o n.alias))
+                    \o (IF n.alias = "" THEN "" ELSE " as " \o QName(n, n.alias)))
             \o (IF n.kwargs = <<>> THEN "" ELSE ", " \o KwSrc(n.kwargs))
     [] n.k = "macro" ->
-         "macro " \o n.n \o (IF n.params = <<>> THEN "" ELSE " " \o
+         "macro " \o QName(n, n.n) \o (IF n.params = <<>> THEN "" ELSE " " \o
               JoinStr([i \in DOMAIN n.params |-> n.params[i].n \o
                           (IF n.params[i].has THEN ": " \o ESrc(n.params[i].e) ELSE "")], ", "))
     [] n.k = "call" ->
-         "call " \o n.n \o (IF n.args = <<>> /\ n.kwargs = <<>> THEN "" ELSE " " \o
+         "call " \o QName(n, n.n) \o (IF n.args = <<>> /\ n.kwargs = <<>> THEN "" ELSE " " \o
               JoinStr([i \in DOMAIN n.args |-> ESrc(n.args[i])] \o
                       (IF n.kwargs = <<>> THEN <<>> ELSE <<KwSrc(n.kwargs)>>), ", "))
 EndName(n) == CASE n.k = "incr" -> "" [] OTHER -> "end" \o n.k
@@ -141,8 +145,8 @@ NSrc(n) ==
     [] n.k = "liquid" -> "{%" \o n.wc[1] \o " liquid\n" \o Lines(n.body) \o "\n" \o n.wc[2] \o "%}"
     [] n.k = "extends" -> TagSrc(n.wc, "extends '" \o n.name \o "'")
     [] n.k = "block" ->
-         TagSrc(n.wc, "block " \o n.n \o (IF n.required THEN " required" ELSE "")) \o Src(n.body)
-         \o TagSrc(n.ewc, "endblock" \o (IF n.endname = "" THEN "" ELSE " " \o n.endname))
+         TagSrc(n.wc, "block " \o QName(n, n.n) \o (IF n.required THEN " required" ELSE "")) \o Src(n.body)
+         \o TagSrc(n.ewc, "endblock" \o (IF n.endname = "" THEN "" ELSE " " \o QName(n, n.endname)))
 
 \* the same constructs as line statements inside {% liquid %} (no delimiters, no
 \* whitespace control, no literal text)
